@@ -2492,7 +2492,7 @@ class Node(_protocols.NodeProtocol, _display.PrettyPrintable):
             for output in removed_outputs:
                 # Detach the output from this node
                 output._producer = None  # pylint: disable=protected-access
-                output._index = -1  # pylint: disable=protected-access
+                output._index = None  # pylint: disable=protected-access
             self._outputs = self._outputs[:new_size]
             for output in removed_outputs:
                 self._drop_sharding_for_value(output)
